@@ -320,3 +320,77 @@ def c02_divzero(R):
                 construct=f"{q}: ZeroDivisionError arm",
             )
     R.need(n >= 2, "ZeroDivisionError arms of the concrete float division not found")
+
+
+def _handler_names(h):
+    if h.type is None:
+        return {"BaseException"}
+    ts = h.type.elts if isinstance(h.type, ast.Tuple) else [h.type]
+    return {(dotted(t) or "").split(".")[-1] for t in ts}
+
+
+def _answers(h):
+    """a handler that ends in a bare re-raise propagates the error; one that returns gives an answer"""
+    last = h.body[-1] if h.body else None
+    return not (isinstance(last, ast.Raise) and last.exc is None)
+
+
+_COVERS_VALUE = {"ValueError", "Exception", "BaseException"}
+_COVERS_OVERFLOW = {"OverflowError", "ArithmeticError", "Exception", "BaseException"}
+
+
+@rule(
+    "C04.fpint",
+    props=("C04", "C02"),
+    floor=2,
+    family="GRD",
+    desc="every conversion of a concrete float to an integer (int(..) of a value derived from the operand's .value) "
+    "is protected for both non-finite cases: inside a try whose answering handlers cover ValueError (NaN) and "
+    "OverflowError (infinity), or dominated by guards that exclude NaN and infinity",
+)
+def c04_fpint(R):
+    from .. import guards
+
+    tree = R.tree
+    m = tree.mod(CFP)
+    n = 0
+    for q, fn in m.functions.items():
+        params = {a.arg for a in fn.args.args}
+        for c in (x for x in walk_no_nested(fn) if isinstance(x, ast.Call) and dotted(x.func) == "int" and x.args):
+            uses_value = any(
+                isinstance(a, ast.Attribute) and a.attr == "value" and isinstance(a.value, ast.Name) and a.value.id in params
+                for a in ast.walk(c.args[0])
+            )
+            if not uses_value:
+                continue
+            n += 1
+            value_ok = overflow_ok = False
+            p = c
+            while p is not None and p is not fn:
+                par = getattr(p, "_parent", None)
+                if isinstance(par, ast.Try) and any(p is st for st in par.body):
+                    for h in par.handlers:
+                        if not _answers(h):
+                            continue
+                        names = _handler_names(h)
+                        value_ok |= bool(names & _COVERS_VALUE)
+                        overflow_ok |= bool(names & _COVERS_OVERFLOW)
+                p = par
+            facts = [(ast.unparse(t), pol) for t, pol in guards.guards_of(c)]
+            for t, pol in facts:
+                if "isfinite(" in t and pol:
+                    value_ok = overflow_ok = True
+                if "isnan(" in t and not pol:
+                    value_ok = True
+                if "isinf(" in t and not pol:
+                    overflow_ok = True
+            missing = [w for w, ok in (("NaN (ValueError)", value_ok), ("infinity (OverflowError)", overflow_ok)) if not ok]
+            R.check(
+                not missing,
+                m,
+                c,
+                f"{q}: float-to-integer conversion handles NaN and infinity",
+                f"{q} converts the operand with `{norm(c)}` and nothing handles {' and '.join(missing)}: folding the "
+                f"conversion of that value raises a Python exception out of the AST constructor instead of yielding a value",
+            )
+    R.need(n >= 2, "float-to-integer conversions of the concrete FP backend not found")
